@@ -92,7 +92,7 @@ func (self Program) String() string {
 
 	globals := ""
 	for _, glob := range self.Globals {
-		globals += glob.String()
+		globals += glob.String() + "\n"
 	}
 	if globals != "" {
 		globals += "\n"
